@@ -90,16 +90,51 @@ fn shape_case(ctx: &Ctx, rep: &mut Report, case: u64, g: &mut Sm64) {
         }
     }
     if case % 16 == 0 {
-        // pure also when called from several threads at once
-        let hs: Vec<_> = (0..4).map(|_| std::thread::spawn(move || { let v: Vec<Vec<f64>> = init_with_seed(n, d, seed); img64(&v) })).collect();
+        // pure also when called from several threads at once - with the same and with other
+        // arguments (each thread repeats its call a few times so that the calls overlap)
         let base = img64(&a);
-        for h in hs {
-            if h.join().map(|v| v != base).unwrap_or(true) {
-                rep.violation("init_with_seed not-pure (concurrent calls)", mon, case, cj);
+        let hs: Vec<_> = (0..6u64)
+            .map(|k| {
+                let (sd, nn) = if k < 2 { (seed, n) } else { (seed.wrapping_add(k), (n + k as usize * 7) % 256) };
+                std::thread::spawn(move || {
+                    let reference: Vec<u64> = Vec::new();
+                    let mut imgs = vec![];
+                    for _ in 0..4 {
+                        let v: Vec<Vec<f64>> = init_with_seed(nn, d, sd);
+                        imgs.push(img64(&v));
+                    }
+                    let _ = reference;
+                    (sd, nn, imgs)
+                })
+            })
+            .collect();
+        let results: Vec<_> = hs.into_iter().map(|h| h.join()).collect();
+        for r in results {
+            let Ok((sd, nn, imgs)) = r else {
+                rep.violation("init_with_seed panic (concurrent calls)", mon, case, cj);
+                return;
+            };
+            // the single-threaded answer for that thread's arguments, computed now that all is quiet
+            let quiet: Vec<Vec<f64>> = init_with_seed(nn, d, sd);
+            let want = if sd == seed && nn == n { base.clone() } else { img64(&quiet) };
+            if imgs.iter().any(|im| *im != want) {
+                rep.violation("init_with_seed not-pure (concurrent calls)", mon, case, json!({"cfg": cj, "thread_args": {"n": nn, "d": d, "seed": sd}}));
                 return;
             }
         }
         rep.count("concurrent_purity_checks");
+    }
+    if case % 8 == 1 {
+        // ... and whatever thread pool the caller happens to be in
+        for threads in [1usize, 3, 16] {
+            let pool = rayon::ThreadPoolBuilder::new().num_threads(threads).build().unwrap();
+            let v: Vec<Vec<f64>> = pool.install(|| init_with_seed(n, d, seed));
+            if img64(&v) != img64(&a) {
+                rep.violation("init_with_seed not-pure (depends on the rayon pool it is called from)", mon, case, json!({"cfg": cj, "pool_threads": threads}));
+                return;
+            }
+        }
+        rep.count("pool_size_purity_checks");
     }
     if img64(&det) != img64(&s42) {
         rep.violation("init_det differs-from-init_with_seed(42)", mon, case, cj);
